@@ -101,8 +101,8 @@ fn c14_active_t() {
 }
 
 // ---------------------------------------------------------------------------
-// Choice of the enclosing call under nesting: the REAL find_call_stmt_in_stmt on a statement tree
-//   { if (..) call }   and   { while (..) call }
+// Choice of the enclosing call under nesting: the REAL find_call_stmt / find_call_stmt_in_stmt on a
+// procedure whose body statement is  if (..) call | while (..) call | if (..) ; else call | { call }
 // with symbolic Reference offsets and call lengths (a three-call tree did not finish in 20 min); tokens are adjacent one-byte tokens, so a call
 // whose Reference chain sums to token index t and that is n tokens long covers text [t, t+n).
 // Asserted: if the cursor lies inside exactly one call, that call is returned together with the
@@ -127,10 +127,21 @@ fn toks8() -> std::mem::ManuallyDrop<[Token; 8]> {
     ])
 }
 
-/// { if (..) call }  - a call two Reference levels below the procedure
-#[kani::proof]
-#[kani::unwind(3)]
-fn c14_enclosing_call_if() {
+use spl_frontend::ast::ProcedureDeclaration as PD;
+
+fn proc_with(stmt: Statement, a: usize) -> std::mem::ManuallyDrop<PD> {
+    std::mem::ManuallyDrop::new(PD {
+        doc: Vec::new(),
+        name: None,
+        parameters: Vec::new(),
+        variable_declarations: Vec::new(),
+        statements: vec![Reference::new(stmt, a)],
+        info: AstInfo::new(0..1),
+    })
+}
+
+/// statement at token `base` + a (base = accumulated offset of the enclosing References), call at +b
+fn enclosing(shape: u8) {
     let toks = toks8();
     let (base, a, b, n): (usize, usize, usize, usize) = (kani::any(), kani::any(), kani::any(), kani::any());
     kani::assume(base <= 2 && a <= 2 && b <= 2 && n >= 1 && n <= 2);
@@ -138,16 +149,14 @@ fn c14_enclosing_call_if() {
     kani::assume(s + n <= 7);
     let cursor: usize = kani::any();
     kani::assume(cursor <= 8);
+    let inner = Box::new(Reference::new(Statement::Call(call(n)), b));
+    let stmt = match shape {
+        0 => Statement::If(IfStatement { condition: None, if_branch: Some(inner), else_branch: None, info: AstInfo::new(0..1) }),
+        1 => Statement::While(WhileStatement { condition: None, statement: Some(inner), info: AstInfo::new(0..1) }),
+        _ => Statement::If(IfStatement { condition: None, if_branch: None, else_branch: Some(inner), info: AstInfo::new(0..1) }),
+    };
     let tree = std::mem::ManuallyDrop::new(Statement::Block(BlockStatement {
-        statements: vec![Reference::new(
-            Statement::If(IfStatement {
-                condition: None,
-                if_branch: Some(Box::new(Reference::new(Statement::Call(call(n)), b))),
-                else_branch: None,
-                info: AstInfo::new(0..1),
-            }),
-            a,
-        )],
+        statements: vec![Reference::new(stmt, a)],
         info: AstInfo::new(0..1),
     }));
     let inside = s <= cursor && cursor < s + n;
@@ -164,31 +173,41 @@ fn c14_enclosing_call_if() {
     }
 }
 
-/// { while (..) call }  (a block with two statements did not finish in 12 min)
+#[kani::proof]
+#[kani::unwind(3)]
+fn c14_enclosing_call_if() {
+    enclosing(0)
+}
+
 #[kani::proof]
 #[kani::unwind(3)]
 fn c14_enclosing_call_while() {
+    enclosing(1)
+}
+
+#[kani::proof]
+#[kani::unwind(3)]
+fn c14_enclosing_call_else() {
+    enclosing(2)
+}
+
+/// the procedure level: find_call_stmt on a procedure that starts at token `base` (> 0 when it is
+/// not the first global declaration) whose body is a call at +a.  (One more nesting level through
+/// find_call_stmt exhausted 24 GB; deeper nesting is decided by the three harnesses above.)
+#[kani::proof]
+#[kani::unwind(2)]
+fn c14_enclosing_call_proc() {
     let toks = toks8();
-    let (base, a, b, n): (usize, usize, usize, usize) = (kani::any(), kani::any(), kani::any(), kani::any());
-    kani::assume(base <= 2 && a <= 2 && b <= 2 && n >= 1 && n <= 2);
-    let s = base + a + b;
+    let (base, a, n): (usize, usize, usize) = (kani::any(), kani::any(), kani::any());
+    kani::assume(base <= 3 && a <= 3 && n >= 1 && n <= 2);
+    let s = base + a;
     kani::assume(s + n <= 7);
     let cursor: usize = kani::any();
     kani::assume(cursor <= 8);
-    let tree = std::mem::ManuallyDrop::new(Statement::Block(BlockStatement {
-        statements: vec![Reference::new(
-            Statement::While(WhileStatement {
-                condition: None,
-                statement: Some(Box::new(Reference::new(Statement::Call(call(n)), b))),
-                info: AstInfo::new(0..1),
-            }),
-            a,
-        )],
-        info: AstInfo::new(0..1),
-    }));
+    let pd = proc_with(Statement::Call(call(n)), a);
     let inside = s <= cursor && cursor < s + n;
-    kani::cover!(inside && base > 0 && b > 0, "cursor in the call inside the loop");
-    let got = find_call_stmt_in_stmt(&tree, &cursor, base, &toks[..]);
+    kani::cover!(inside && base > 0 && a > 0, "cursor in a call of a procedure that is not first in the file");
+    let got = find_call_stmt(&pd, &cursor, base, &toks[..]);
     match got {
         Some((c, off)) => {
             assert!(inside, "C14 a call is reported although the cursor is not inside it");
